@@ -26,7 +26,7 @@ ALLOW = [
     (r'.*', r'^std::fs::DirEntry::metadata\(Entry\(Temp\)\)$', 'escapes', 'per-file temp cleanup is best effort (races with the files\' owners)'),
     (r'.*', r'^std::fs::remove_file\(Temp/Listed\)$', 'escapes', 'per-file temp cleanup is best effort (races with the files\' owners)'),
     (r'.*', r'^std::fs::(symlink_)?metadata\((Temp|Base|parent\(Base/Key\))\)$', 'escapes_without_mkdir', 'stat in ensure-directory falls through to create_dir_all, whose result is reported'),
-    (r'^stack::', r'^write/read-side get$', 'reread', 're-read after ensure\'s put falls back to the pre-opened handle'),
+    (r'^stack::', r'^write/read-side get$', 'reread', 'a failed write-side lookup next to ensure\'s insert falls back to the pre-opened handle; the insert itself is reported'),
     (r'.*', r'^filetime::set_file_atime\(Base/Key\)$', 'eexist_touch', 'touch after link-EEXIST: absence is benign'),
 ]
 # first publish attempt: errors are superseded by the second attempt after create_dir_all
@@ -100,7 +100,14 @@ def classify_recs(ctx, recs, rule):
                 bad = []
                 for (_e0, x) in esc:
                     owners = [e for e in rec['edges'] if sites.result_value(q.E[e][2]) == q.E[x][2]['val']]
-                    bad += [e for e in owners if q.must_precede(puts, [e])]
+                    early = [e for e in owners if q.must_precede(puts, [e])]
+                    if early:
+                        # a lookup before the insert: still harmless when every Ok exit after its failure is
+                        # preceded by a successful insert (the operation's effect is achieved regardless)
+                        inserts = q.edges(lambda ev: ev['k'] == 'traitcall' and ev['trait'] == wt and ctx.insert_methods().get(ev['method']) in ('put', 'set'))
+                        oks = q.terminals(lambda ev: ev['k'] == 'ret' and ev.get('variant') == 'Ok')
+                        early = [e for e in early if q.must_follow(outcomes(q, [e], 'Err'), outcomes(q, inserts, 'Ok'), oks)]
+                    bad += early
                 if bad:
                     ok = False
                     detail = 'an error of a write-side lookup is discarded and success reported'
